@@ -100,7 +100,7 @@ theorem effects_GuardsR (H : Body → String) (s : State) (o : OpEv)
   | timer n => exact FreeList.of_all (timer_free s n) s
   | buildCache frm now => exact FreeList.of_all (buildCache_free s frm now) s
   | receivedQ n m => exact FreeList.of_all (received_free s n m) s
-  | recover now names => exact recover_freeList H s now names s
+  | recover now names => exact recover_GuardsR H s now names hl
   | cleanStrays now names => exact cleanStrays_Guards s now names hok
   | cleanWaiting names => exact FreeList.of_all (cleanWaiting_free s names) s
   | consume t => apply FreeList.of_all; simp [effects, recFree]
